@@ -31,6 +31,12 @@ def buffer_capacity(ctx):
                     v = f.val(r["args"][0])
                     ctx.need(v is not None, "malloc size of evbuf is not a constant")
                     return v
+    # the result may pass through a local first (NULL-checked, then stored): the only constant-size malloc of the
+    # function is the event buffer
+    vals = {f.val(n["args"][0]) for n in f.nodes if n["k"] == "CallExpr" and n.get("callee") == "malloc" and n.get("args")}
+    vals.discard(None)
+    if len(vals) == 1:
+        return vals.pop()
     ctx.broken("cannot find 'rthread.evbuf = malloc(CONST)' in ovni_thread_init")
 
 
